@@ -3,12 +3,12 @@ from ipv import Unit, Ob
 def build(tier, seed):
     u = Unit('subst', '/repo/src/impl.cxx',
              roots=['ipr::impl::Elementary_substitution::operator[]', 'ipr::impl::Elementary_substitution::Elementary_substitution',
-                    'ipr::impl::General_substitution::operator[]', 'ipr::impl::General_substitution::subst'],
+                    'ipr::impl::General_substitution::operator[]', 'ipr::impl::General_substitution::subst', 'ipr::impl::General_substitution::General_substitution'],
              transparent=['std::basic_string_view', 'std::pair'],
              names=dict(elem_ctor='ipr::impl::Elementary_substitution::Elementary_substitution',
                         elem_index='ipr::impl::Elementary_substitution::operator[]',
                         gen_index='ipr::impl::General_substitution::operator[]',
-                        gen_subst='ipr::impl::General_substitution::subst'))
+                        gen_subst='ipr::impl::General_substitution::subst', gen_ctor=('ipr::impl::General_substitution::General_substitution', 'void (void)')))
     # std stubs are resolved by their mangled names (stable: they encode only the std signature)
     M = '_ZNKSt3mapIPKN3ipr9ParameterEPKNS0_4ExprESt4lessIS3_ESaISt4pairIKS3_S6_EEE'
     u.std = dict(map_find='__std_' + M + '4findERSA_', map_end='__std_' + M + '3endEv',
